@@ -237,6 +237,57 @@ structure HashSite where
   text : String
   deriving Repr, Inhabited
 
+/-! ### The growth part of `store_str` (what happens when no existing block has room), translated
+statement by statement from the source into a small decision tree. -/
+
+inductive GVar where
+  | len | bucketCap | usage | max | nextCap | remaining
+  deriving DecidableEq, Repr, Inhabited
+
+inductive GExpr where
+  | var (v : GVar)
+  | lit (n : Nat)
+  | mul (a b : GExpr)
+  | add (a b : GExpr)
+  | satSub (a b : GExpr)
+  | unknown (text : String)
+  deriving DecidableEq, Repr, Inhabited
+
+inductive GCond where
+  | gt (a b : GExpr)
+  | lt (a b : GExpr)
+  | ge (a b : GExpr)
+  | le (a b : GExpr)
+  | unknown (text : String)
+  deriving DecidableEq, Repr, Inhabited
+
+/-- Where the new block goes. -/
+inductive GPlace where
+  | pushBack             -- `self.buckets.push(bucket)`
+  | insertBeforeLast     -- `self.buckets.insert(self.buckets.len().saturating_sub(2), bucket)`
+  | pushFront            -- `self.buckets.push_front(bucket.into_ref())`
+  | missing
+  deriving DecidableEq, Repr, Inhabited
+
+/-- One successful path: `allocate_memory(claim)?`, a new block of `size` bytes (`sizeChecked`: built
+with the checking `NonZeroUsize::new(..).ok_or_else(..)?`), optionally a new block capacity, the string
+pushed into the new block and the block placed. -/
+structure GAlloc where
+  claim : GExpr
+  size : GExpr
+  sizeChecked : Bool
+  setCap : Option GExpr
+  place : GPlace
+  deriving DecidableEq, Repr, Inhabited
+
+inductive GTree where
+  | bind (v : GVar) (e : GExpr) (k : GTree)
+  | ite (c : GCond) (t e : GTree)
+  | err                                   -- `return Err(MemoryLimitReached)`
+  | alloc (a : GAlloc)
+  | unknown (text : String)               -- a statement the translator does not understand
+  deriving DecidableEq, Repr, Inhabited
+
 /-- Shape of `LockfreeArena::allocate_memory`. -/
 inductive AllocShape where
   | checkThenAdd               -- load, compare, fetch_add as separate steps
